@@ -532,6 +532,9 @@ func c06Compare(x *X, doc []*ref.Block, label string) {
 	if ser.UsedTab {
 		x.Count("docs_with_tab")
 	}
+	if ser.UsedLazy {
+		x.Count("docs_with_lazy_continuation_line")
+	}
 	if ser.CRLF {
 		x.Count("docs_crlf")
 	}
